@@ -48,6 +48,8 @@ pub struct Live {
     pub tainted: bool,
     pub dead: bool, // a panic escaped from this instance
     pub len0: Option<usize>, // serialized length after the first input (C18)
+    pub last: Vec<f64>,      // raw outputs of the previous step
+    pub last_in: f64,        // previous scalar input (EMA restart check)
 }
 
 #[derive(Default, Clone)]
@@ -60,7 +62,9 @@ pub struct Stats {
     pub skipped_undef: u64,
     pub skipped_ovf: u64,
     pub skipped_tainted: u64,
+    pub skipped_tie: u64,
     pub det_compared: u64,
+    pub markov_checked: u64,
     pub eff_compared: u64,
     pub range_checked: u64,
     pub deg_checked: u64,
@@ -268,7 +272,7 @@ impl<'a> Run<'a> {
                     let r = catch_unwind(AssertUnwindSafe(|| Ind::new(&cfg.kind, &cfg.per, cfg.m)));
                     match r {
                         Ok(Ok(ind)) => {
-                            let l = Live { ind, cfg, t: 0, mag: 0.0, strict: 0, eff: 0, cmax: 1.0, tainted: false, dead: false, len0: None };
+                            let l = Live { ind, cfg, t: 0, mag: 0.0, strict: 0, eff: 0, cmax: 1.0, tainted: false, dead: false, len0: None, last: vec![], last_in: 0.0 };
                             self.insts.insert(i, l);
                         }
                         Ok(Err(e)) => ctx.violate(self.line_no, self.unit, idx, None, "ctor-rejected-valid", json!({"cfg": cfg.key, "err": e})),
@@ -302,6 +306,7 @@ impl<'a> Run<'a> {
                         l.cmax = 1.0;
                         l.tainted = false;
                         l.len0 = None;
+                        l.last.clear();
                         if has(&prop, "params") {
                             let after = (l.ind.display(), l.ind.period(), l.ind.multiplier().map(|m| m.to_bits()));
                             if before != after {
@@ -506,6 +511,28 @@ impl<'a> Run<'a> {
             }
         };
         let got = observe(&l.cfg.kind, &raw);
+        // ---- C02, long recursions: the whole memory of an EMA is its last output (spec lemma: the reference
+        //      state of EMA is that one rational), so a fresh EMA fed [previous output, x_t] must return out_t
+        if prop == "C02" && l.cfg.kind == "EMA" && name == "s" && !l.tainted && l.last.len() == 1 && l.t >= 2 {
+            let x = unit.price(op["x"].as_i64().unwrap());
+            let prev = l.last[0];
+            let per = l.cfg.per.clone();
+            let r = catch_unwind(AssertUnwindSafe(|| {
+                let mut f = Ind::new("EMA", &per, 1.0).unwrap();
+                f.next_s(prev);
+                f.next_s(x).unwrap()[0]
+            }));
+            ctx.stats.markov_checked += 1;
+            match r {
+                Ok(y) => {
+                    if !rel_close(y, raw[0], 1e-12, l.mag) {
+                        ctx.violate(self.line_no, &unit, idx, Some(&l), "ema-restart-differs", json!({"restarted": y, "running": raw[0], "prev_out": prev, "x": x}));
+                    }
+                }
+                Err(_) => ctx.violate(self.line_no, &unit, idx, Some(&l), "ema-restart-panic", json!({})),
+            }
+        }
+        l.last = raw.clone();
         if let Some(d) = &di_raw {
             ctx.stats.eff_compared += 1;
             if d.len() != raw.len() || d.iter().zip(raw.iter()).any(|(a, b)| !same_bits(*a, *b)) {
@@ -617,8 +644,14 @@ impl<'a> Run<'a> {
         let t = l.t;
         let mfac = 1.0 + l.cfg.m.abs();
         let fields = o["f"].as_array().cloned().unwrap_or_default();
+        // a tie between derived values is only preserved by an exact change of unit
+        let exact_unit = unit.b == 0.0 && unit.a > 0.0 && (unit.a.to_bits() & ((1u64 << 52) - 1)) == 0;
+        let tie_skip = o["ts"].as_bool().unwrap_or(false) && !exact_unit;
+        if tie_skip {
+            ctx.stats.skipped_tie += 1;
+        }
         // ---- value comparison against the exact reference
-        if has(&prop, "value") {
+        if has(&prop, "value") && !tie_skip {
             if ctx.distinct.len() < 50_000_000 {
                 ctx.distinct.insert(h2(l.strict, &[l.t as i64, l.cfg.per.iter().sum::<usize>() as i64], l.cfg.kind.len() as u8));
             }
@@ -715,7 +748,7 @@ impl<'a> Run<'a> {
                 let dim = f["dim"].as_str().unwrap_or("ratio");
                 let g = got[k];
                 let kind = l.cfg.kind.as_str();
-                if cls == "exact" && matches!(kind, "FAST_STOCH" | "CCI" | "ROC" | "TR") {
+                if (cls == "exact" || cls == "neutral") && matches!(kind, "FAST_STOCH" | "CCI" | "ROC" | "TR") {
                     let exp = image(&unit, r, dim);
                     if !num_eq(g, exp) {
                         ctx.violate(self.line_no, &unit, idx, Some(&l), "neutral-exact", json!({"expected": exp, "got": g}));
@@ -818,7 +851,7 @@ pub fn stats_json(s: &Stats) -> Value {
     json!({
         "behaviours": s.behaviours, "ops": s.ops, "steps": s.steps, "fields_compared": s.fields_compared,
         "skipped_ill_conditioned": s.skipped_ill, "skipped_undefined": s.skipped_undef, "skipped_overflow": s.skipped_ovf,
-        "skipped_tainted": s.skipped_tainted, "determinism_compared": s.det_compared, "effective_input_compared": s.eff_compared,
+        "skipped_tainted": s.skipped_tainted, "skipped_derived_tie": s.skipped_tie, "determinism_compared": s.det_compared, "ema_restart_checked": s.markov_checked, "effective_input_compared": s.eff_compared,
         "range_checked": s.range_checked, "degenerate_checked": s.deg_checked, "order_checked": s.ord_checked,
         "order_held_with_zero_slack": s.ord_zero_slack, "returns_checked": s.returns_checked, "size_checked": s.size_checked,
         "panics": s.panics, "max_err_over_tol": s.max_rel_err
